@@ -28,8 +28,8 @@ DEFAULT_POLICIES = {
 }
 # which model-provided policies each property adds when the model offers them
 EXTRA_POLICIES = {
-    "C04": ["frontier", "complete", "collide"], "C05": ["frontier", "collide", "complete"], "C06": ["complete", "collide", "greedy"],
-    "C07": ["frontier", "collide", "complete"], "C08": ["complete", "greedy"], "C09": ["complete", "collide", "frontier"],
+    "C04": ["frontier", "complete", "collide"], "C05": ["frontier", "collide", "complete"], "C06": ["complete", "collide", "greedy", "frontier"],
+    "C07": ["frontier", "collide", "complete"], "C08": ["complete", "greedy", "frontier"], "C09": ["complete", "collide", "frontier"],
     "C11": ["complete", "collide", "greedy", "lazy"], "C12": ["complete", "frontier", "collide"],
 }
 PROBES = {"C04": "all", "C05": "all", "C09": "some", "C07": "some"}
@@ -374,7 +374,7 @@ def make_probe_fn(prop: str, runner: Runner, P: ModelCtx, rng: np.random.Generat
     n_act = A.num_actions(runner.spec) if tuple(runner.spec.shape) == () else None
     if A.MASK_KIND[runner.env_name] == "per_agent":
         lo_, hi_ = A.spec_bounds(runner.spec)
-        n_act = int(np.sum(hi_ - lo_ + 1))
+        n_act = 2 * int(np.sum(hi_ - lo_ + 1))
     elif n_act is None:
         n_act = A.num_actions(runner.spec)
     n_act = min(n_act, per_state) if n_act <= per_state else (2 * max(4, per_state // 8) if mode == "all" else 8)
@@ -406,15 +406,25 @@ def make_probe_fn(prop: str, runner: Runner, P: ModelCtx, rng: np.random.Generat
         out = []
         if kind == "per_agent" and M is not None:
             M = M.astype(bool)
-            default = []
+            # what the *other* agents do while one agent deviates: their first masked-in action (usually the no-op), their
+            # last one (LBF: load; Connector / Cleaner: a real move) or a random masked-in one - events that need two agents to
+            # act on the same step (one pushes into a food cell while the others eat it) only occur with active partners
+            default, last_in, rand_in = [], [], []
             for i, row in enumerate(M):
                 idx = np.flatnonzero(row)
                 default.append(int(idx[0]) if len(idx) else int(lo[i]))
-            pairs = [(i, j) for i in range(M.shape[0]) for j in range(int(lo[i]), min(int(hi[i]), M.shape[1] - 1) + 1)]
+                last_in.append(int(idx[-1]) if len(idx) else int(lo[i]))
+                rand_in.append(int(rng.choice(idx)) if len(idx) else int(lo[i]))
+            bases = [default]
+            if last_in != default:
+                bases.append(last_in)
+            if rand_in not in bases:
+                bases.append(rand_in)
+            pairs = [(i, j, b) for b in range(len(bases)) for i in range(M.shape[0]) for j in range(int(lo[i]), min(int(hi[i]), M.shape[1] - 1) + 1)]
             if len(pairs) > budget:
                 pairs = [pairs[k] for k in rng.choice(len(pairs), budget, replace=False)]
-            for i, j in pairs:
-                a = np.asarray(default, dt).copy()
+            for i, j, b in pairs:
+                a = np.asarray(bases[b], dt).copy()
                 a[i] = j
                 out.append((a, {"agent": i}))
             return out
@@ -470,22 +480,12 @@ def run_model_shard(prop: str, shard: Dict[str, Any], rep: Report) -> None:
     probe_fn = make_probe_fn(prop, runner, P, rng, tier)
 
     if prop == "C10":
-        # a fixed minimum number of keys for every generator, then - because rare-key defects (one instance in a few hundred)
-        # are the ones a handful of keys cannot see - as many more as fit in a small time box (cheap generators get thousands)
-        import time as _time
-
-        n_min = int(os.environ.get("JMON_C10_KEYS", 48 if tier == "quick" else 300))
-        n_max = n_min if "JMON_C10_KEYS" in os.environ else (800 if tier == "quick" else 6000)
-        box = 10.0 if tier == "quick" else 75.0
+        # many keys per generator configuration: rare-key defects (one instance in a few hundred) are the ones a handful of keys
+        # cannot see, and a reset costs about a millisecond. The count is fixed (not time-boxed) so that a loaded machine
+        # explores exactly what an idle one does; a configuration may ask for more (`c10_keys`).
+        n_keys = int(os.environ.get("JMON_C10_KEYS", 0)) or int(cfg.get("c10_keys", {}).get(tier, 600 if tier == "quick" else 3000))
         digs = set()
-        t_start = None
-        n_keys = 0
-        for ep in range(n_max):
-            if ep >= n_min and _time.time() - t_start > box:
-                break
-            if ep == 1:
-                t_start = _time.time()  # the first reset pays for compilation
-            n_keys += 1
+        for ep in range(n_keys):
             key, kint = key_for(seed, sid, ep)
             state, ts = runner.reset(key)
             ev = Event(runner, ep, 0, kint, [], None, None, state, ts)
